@@ -78,6 +78,9 @@ def _spaces(tier, variant):
     for ne in range(0, 2):
         sp.append(dict(nn=3, ne=ne, W=W3, pairs="all", need=None, chunk=81))
     sp.append(dict(nn=3, ne=2, W=W3, pairs="all", need=None, chunk=9))
+    # five nodes, two edges stored lower -> higher index (three isolated nodes at least): a search that settles only a small
+    # fraction of the network, followed by queries from elsewhere
+    sp.append(dict(nn=5, ne=2, W=W4, pairs="lt", need=None, chunk=9))
     if tier == "quick":
         # a slice of the 3-edge space: every edge stored lower -> higher node index (the complete one is in thorough)
         sp.append(dict(nn=3, ne=3, W=W3, pairs="lt", need=None, chunk=1))
